@@ -2,6 +2,7 @@ package main
 
 import (
 	"encoding/json"
+	"errors"
 	"fmt"
 	"path/filepath"
 	"strings"
@@ -240,6 +241,24 @@ func c20Find(c *Ctx, cs *C20Case, r *Rng, out *CaseOut, wantSig string) []c20Fai
 	sigs := map[string]bool{}
 	W := len(base.Calls)
 	cs.W = W
+	// Two caller tasks FRender the same parsed template at the same time, each into its
+	// own writer failing with its own error value at its own write index, under one
+	// seeded schedule: each call must return an error carrying ITS writer's failure.
+	if x.tpl != nil && W >= 1 && (wantSig == "" || strings.HasPrefix(wantSig, "concurrent|")) {
+		if f, ok := x.concurrent(r, base.Accepted, W); ok {
+			out.Evals++
+			if c != nil {
+				c.count("fault:preemption_runs", 1)
+			}
+			if f.clause != "" && (wantSig == "" || wantSig == f.sig) {
+				sigs[f.sig] = true
+				fails = append(fails, f)
+				if wantSig != "" {
+					return fails
+				}
+			}
+		}
+	}
 	for _, f := range c20Plan(r, base.Calls) {
 		w := &FaultWriter{K: f.k, Accept: f.accept, Sticky: f.sticky}
 		res := x.run(w)
@@ -275,6 +294,52 @@ func c20Find(c *Ctx, cs *C20Case, r *Rng, out *CaseOut, wantSig string) []c20Fai
 		}
 	}
 	return fails
+}
+
+var errWriterA, errWriterB = errors.New("verif-writer-A-failed-51c2"), errors.New("verif-writer-B-failed-9e07")
+
+func (x *c20Exec) concurrent(r *Rng, base []byte, W int) (c20Fail, bool) {
+	simrt.SetMapOrder(simrt.OrderAsc, 0)
+	simrt.SetClock(time.Unix(1700000000, 0).UTC())
+	before := simrt.Steps
+	if lone := Run(EPFRender, x.eng, x.tpl, x.src, x.b, &FaultWriter{K: -1}); lone.Panic != "" {
+		return c20Fail{}, false
+	}
+	steps := int64(simrt.Steps - before)
+	ws := [2]*FaultWriter{{K: r.Intn(W), Sticky: true, Err: errWriterA}, {K: r.Intn(W), Sticky: true, Err: errWriterB}}
+	var res [2]Res
+	fns := []func(){
+		func() { res[0] = Run(EPFRender, x.eng, x.tpl, x.src, x.b, ws[0]) },
+		func() { res[1] = Run(EPFRender, x.eng, x.tpl, x.src, x.b, ws[1]) },
+	}
+	q := int64(pick(r, []int{2, 9, 60, 400}))
+	rr := simrt.RunTasks(fns, []int64{steps*50 + 10000, steps*50 + 10000}, func(run []int, last int, _ uint32) (int, int64) {
+		return run[r.Intn(len(run))], 1 + int64(r.U64()%uint64(q))
+	})
+	f := c20Fail{k: ws[0].K, sticky: true}
+	if rr.Deadlock || len(rr.Overrun) > 0 {
+		f.clause, f.sig, f.detail = "returns-error", "concurrent|progress", "two concurrent FRender calls with failing writers did not both return"
+		return f, true
+	}
+	for i := 0; i < 2; i++ {
+		own, other := ws[i].fail(), ws[1-i].fail()
+		switch {
+		case !ws[i].Fired:
+		case res[i].Panic != "":
+			f.clause, f.sig, f.detail = "no-panic", "concurrent|no-panic", fmt.Sprintf("concurrent FRender %d panicked: %q at %s", i, res[i].Panic, res[i].Frame)
+		case res[i].OK || res[i].raw == nil:
+			f.clause, f.sig, f.detail = "returns-error", "concurrent|returns-error", fmt.Sprintf("of two concurrent FRender calls on one template, call %d returned success although its writer failed at write %d", i, ws[i].K)
+		case !carriesErr(res[i].raw, own):
+			what := "does not carry its writer's failure"
+			if carriesErr(res[i].raw, other) {
+				what = "carries the OTHER call's writer failure"
+			}
+			f.clause, f.sig, f.detail = "carries-failure", "concurrent|carries-failure", fmt.Sprintf("of two concurrent FRender calls on one template, the error returned by call %d (%q) %s", i, res[i].Err, what)
+		case !strings.HasPrefix(string(base), string(ws[i].Accepted)):
+			f.clause, f.sig, f.detail = "accepted-is-prefix", "concurrent|accepted-is-prefix", fmt.Sprintf("concurrent FRender %d: accepted bytes %q are not a prefix of the fault-free output", i, ws[i].Accepted)
+		}
+	}
+	return f, true
 }
 
 func (ck c20) RunCase(c *Ctx, idx int) *CaseOut {
